@@ -156,6 +156,35 @@ def rule_view_defs(ctx):
             )
     if set(parallel) - seen:
         raise A.AnchorLost(f"{UTILS}::State::enabled_fields_data", f"per-field vectors missing in the literal: {sorted(set(parallel) - seen)}")
+    # the same for the per-variant vectors of MultiVariantData (Unwrap / TryUnwrap / IsVariant / TryInto zip them)
+    evd = A.get_fn(ctx.files, UTILS, "State::enabled_variant_data")
+    vlit = next((x for x, _ in A.find(evd.block, "Expr::Struct") if A.path_last(x["path"]) == "MultiVariantData"), None)
+    if vlit is None:
+        raise A.AnchorLost(f"{UTILS}::State::enabled_variant_data", "MultiVariantData literal")
+    lets.clear()
+    for st, _ in A.find(evd.block, "Stmt::Local"):
+        ns = A.pat_idents(st["pat"])
+        if len(ns) == 1 and st.get("init"):
+            lets[ns[0]] = st["init"]["expr"]
+    vparallel = ("variants", "variant_states", "infos")
+    vseen = set()
+    for fv in vlit["fields"]:
+        nm = fv["member"]["0"]["sym"] if A.kind(fv["member"]) == "Member::Named" else None
+        if nm not in vparallel:
+            continue
+        vseen.add(nm)
+        o = origin(fv["expr"])
+        ctx.instance(f"enabled_variant_data:{nm}", sample={"vector": nm, "derived_from": o})
+        if o[0] != "enabled":
+            ctx.report(
+                f"view:parallel-variants:{nm}",
+                ctx.where(evd.file, fv["expr"]),
+                f"`MultiVariantData::{nm}` is built from `{o[1]}` and not 1:1 from one of the `enabled_*` views: it is no longer parallel to `variants` - consumers that zip it with the enabled variants "
+                "(Unwrap / TryUnwrap read each variant's owned / ref / ref_mut selection from `infos`) give every variant after an ignored one the selection of its predecessor: accessors silently appear / disappear",
+                {},
+            )
+    if set(vparallel) - vseen:
+        raise A.AnchorLost(f"{UTILS}::State::enabled_variant_data", f"per-variant vectors missing in the literal: {sorted(set(vparallel) - vseen)}")
     asf = A.get_fn(ctx.files, UTILS, "State::assert_single_enabled_field")
     t = A.fn_text(asf)
     ctx.instance("assert_single_enabled_field")
@@ -228,6 +257,25 @@ def rule_error_selection(ctx):
         ctx.instance(f"default:{key}")
         if not any(A.wsearch(t, p_) for p_ in pats):
             ctx.report(f"errsel:default:{key}", ctx.where(f, pf.node), f"default source/backtrace inference changed ({what})", {})
+    # 'Backtrace-typed': the type is a path whose LAST segment is the name, without generic arguments - however the path
+    # is qualified (`std::backtrace::Backtrace`, `::std::backtrace::Backtrace`, `bt::Backtrace`)
+    seg = A.get_fn(ctx.files, ERR, "is_type_path_ends_with_segment")
+    st_ = A.fn_text(seg)
+    sprm = [A.pat_idents(p_["0"]["pat"]) for p_ in seg.node["sig"]["inputs"] if A.kind(p_) == "FnArg::Typed"]
+    tailp = sprm[1][0] if len(sprm) == 2 and sprm[1] else "tail"
+    ctx.instance("backtrace-type:last-segment", sample=st_[:300])
+    last_seg = re.search(r"\.segments\.(last\(\)|iter\(\)\.(last|next_back)\(\))", st_) is not None
+    whole_path = re.search(r"\.(is_ident|get_ident|require_ident)\(|segments\.(first\(\)|len\(\))|segments\[0\]", st_) is not None
+    cmp_tail = re.search(r"\.ident\s*==\s*%s\b|%s\s*==\s*\w+\.ident\b" % (re.escape(tailp), re.escape(tailp)), st_) is not None
+    no_args = re.search(r"PathArguments::None|\.arguments\.is_(none|empty)\(\)", st_) is not None
+    if not (last_seg and cmp_tail and no_args) or whole_path:
+        ctx.report(
+            "errsel:backtrace-type:last-segment",
+            ctx.where(seg.file, seg.node),
+            "`is_type_path_ends_with_segment` no longer compares the *last* path segment (without generic arguments) with the name: a test on the whole path (`Path::is_ident`) "
+            "needs a single segment, so `std::backtrace::Backtrace` stops counting as a backtrace type - the two-field inference `Q(Inner, std::backtrace::Backtrace)` is lost and `source()` returns `None` instead of field 0",
+            {"body": st_[:300]},
+        )
     inf = A.get_fn(ctx.files, ERR, "infer_source_field")
     # OPT-ALG: the two-field inference is evaluated on every combination of its observations and compared with the
     # documented table: exactly two fields, no source yet, a backtrace field at position b -> the *other* field,
